@@ -288,12 +288,12 @@ theorem LInv.init {dnorm : List 𝕜 → ℝ} (hN : NormContract dnorm) {vstart 
     rw [if_pos rfl]
     exact vdot_vdiv_self hN h0
 
-/-- **main lemma**: the state returned by `lanczosCore` satisfies the final predicate for its `k` vectors -/
-theorem lanczosCore_fin {dnorm : List 𝕜 → ℝ} (hN : NormContract dnorm) {vstart : List 𝕜} {numiter : Nat}
+/-- **main lemma**: the state returned by `lanczosCoreU` (uncapped iteration) satisfies the final predicate for its `k` vectors -/
+theorem lanczosCoreU_fin {dnorm : List 𝕜 → ℝ} (hN : NormContract dnorm) {vstart : List 𝕜} {numiter : Nat}
     (hA : IsHermitian vstart.length Afun) {st : LState 𝕜 ℝ}
-    (h : lanczosCore Afun dnorm vstart numiter = .ok st) :
+    (h : lanczosCoreU Afun dnorm vstart numiter = .ok st) :
     ∃ k, k ≤ numiter ∧ LFin vstart.length Afun st k := by
-  obtain ⟨h0, hm, rfl⟩ := lanczosCore_ok Afun dnorm h
+  obtain ⟨h0, hm, rfl⟩ := lanczosCoreU_ok Afun dnorm h
   have h0' : 0 < dnorm vstart := of_decide_eq_true h0
   have hn : 0 < vstart.length := hN.pos_dim h0'
   have hl := lanczosLoop_inv hN hA hn (numiter - 1) 0 _ (LInv.init (Afun := Afun) hN h0')
@@ -305,6 +305,22 @@ theorem lanczosCore_fin {dnorm : List 𝕜 → ℝ} (hN : NormContract dnorm) {v
     have := lanczosFinish_fin (hl.2 (by simpa using hb))
     rw [show 0 + (numiter - 1) = numiter - 1 by omega, show numiter - 1 + 1 = numiter by omega] at this
     exact ⟨numiter, Nat.le_refl _, this⟩
+
+/-- the capped run (F11): final predicate for its `k ≤ min numiter (len vstart)` vectors -/
+theorem lanczosCore_fin' {dnorm : List 𝕜 → ℝ} (hN : NormContract dnorm) {vstart : List 𝕜} {numiter : Nat}
+    (hA : IsHermitian vstart.length Afun) {st : LState 𝕜 ℝ}
+    (h : lanczosCore Afun dnorm vstart numiter = .ok st) :
+    ∃ k, k ≤ numiter ∧ k ≤ vstart.length ∧ LFin vstart.length Afun st k := by
+  obtain ⟨k, hk, hf⟩ := lanczosCoreU_fin hN hA h
+  exact ⟨k, by omega, by omega, hf⟩
+
+/-- **main lemma**: the state returned by `lanczosCore` satisfies the final predicate for its `k` vectors -/
+theorem lanczosCore_fin {dnorm : List 𝕜 → ℝ} (hN : NormContract dnorm) {vstart : List 𝕜} {numiter : Nat}
+    (hA : IsHermitian vstart.length Afun) {st : LState 𝕜 ℝ}
+    (h : lanczosCore Afun dnorm vstart numiter = .ok st) :
+    ∃ k, k ≤ numiter ∧ LFin vstart.length Afun st k := by
+  obtain ⟨k, hk, _, hf⟩ := lanczosCore_fin' hN hA h
+  exact ⟨k, hk, hf⟩
 
 /-- entries of the symmetric tridiagonal matrix with diagonal `alpha` and off-diagonals `beta` -/
 def tridiag (alpha beta : List ℝ) (a b : Nat) : ℝ :=
